@@ -11,7 +11,7 @@ TECH = "Rocq theorem over an executable model + differential correspondence with
 # id -> (level text, level note)   ; absent => not_applicable with REASON
 CLAIMED = {
  "C01": (
-  "Coq theorems (coq/Properties/C01.v, 33 pinned, axiom-free, coqchk: Axioms <none>) over an executable pointer machine that mirrors add_bytes / remove_bytes / every "
+  "Coq theorems (coq/Properties/C01.v, 36 pinned, axiom-free, coqchk: Axioms <none>) over an executable pointer machine that mirrors add_bytes / remove_bytes / every "
   "resize_notification / every container operation line by line (memory as the whole allocation, pointer trees mirroring every Rust "
   "Ptr type incl. UnsizedList's inner_exclusive / possible_mut_borrow / range). PROVED for EVERY shape of the universe (C01_every_shape) - structs, lists of any "
   "element type / prefix width, trailing RemainingBytes, lists and maps of unsized elements, generated enums, nested to any depth - every well-formed value, "
@@ -28,13 +28,11 @@ CLAIMED = {
   "All of it is folded into ONE history theorem, C01_full_run_refines (any interleaving of all these operations, with the keyed "
   "operations' observations), and C01_keyed_views_stay_sorted. Generated enums: paths descend into the live variant (step SV), whole enum values are replaced by set_from_owned, and the generated setter set_<variant>(DefaultInit) refines assigning the variant's default value (C01_enum_switch_refines); C01_run_refines_with_switches is the history theorem with switches, C01_dispatcher_tie_switch its tie to the runner's dispatcher. "
   "C01_dispatcher_tie / _all_ops prove that the dispatcher the extracted runner executes returns what descent + operation return. The "
-  "flat-shape theorems of the first round remain as the special case. UnsizedMap insert on an existing key, UnsizedString, non-default and "
-  "failing initializers are tied by correspondence only; everything is ALSO tied by correspondence: 1.5k (quick) / 12k (thorough) generated histories on 25 Rust shapes (four with generated enums: variant switches, operations inside the live variant) nested to "
+  "flat-shape theorems of the first round remain as the special case. NON-DEFAULT initializers (the all-ones arrays, [1;1;1] for RemainingBytes) through UnsizedList::insert, set_from_init and UnsizedMap::insert on a new or an existing key are operations of the history theorem C01_run_refines_with_initializers (C01_initializer_writes_its_value, C01_dispatcher_refines_initializers). UnsizedString is tied by correspondence only; everything is ALSO tied by correspondence: 1.5k (quick) / 12k (thorough) generated histories on 25 Rust shapes (four with generated enums: variant switches, operations inside the live variant) nested to "
   "depth 3 run through the real ExclusiveWrapper API and the extracted machine (0 disagreements), judged against an independent "
   "plain-Vec/BTreeMap oracle in Python.",
-  "PARTIAL (stated in Properties/C01.v): UnsizedString, "
-  "non-default initializers and the failing-initializer paths (D16) are in the machine and the correspondence but have no refinement "
-  "theorem. Found and fixed D7 (stale inner pointer not "
+  "PARTIAL (stated in Properties/C01.v): UnsizedString is in the machine (as a view of a byte list) and the correspondence but has no theorem of its own; "
+  "the FAILING-initializer path is where the property is false of code and model alike (D16, machine-checked as C06_failing_initializer_refuted). Found and fixed D7 (stale inner pointer not "
   "shifted), D18 (empty trailing RemainingBytes at full capacity: found while proving the flat pointer assertions) and D26 (a STALE "
   "recorded inner pointer took part in check_pointers and could be shifted out of the allocation: found while stating the general "
   "layout invariant); known finding D16 (failing initializer after the resize)."),
@@ -74,7 +72,7 @@ CLAIMED = {
   "over every step of 21 growth-heavy histories) and a generator biased to failing operations; after a failed operation bytes, length, "
   "live accessors and a fresh parse are observed and further operations applied; model, implementation and the plain oracle must agree. "
   "Second stage on native pinocchio accounts where AccountInfo::resize_unchecked itself refuses the growth.",
-  "Known finding D16 (not repaired: not a small safe patch): an element initializer that fails (array longer than the list's "
+  "Known finding D16 (not repaired: not a small safe patch; machine-checked on the model as C06_failing_initializer_refuted, whose witness is the replayed history): an element initializer that fails (array longer than the list's "
   "length prefix allows) runs after the container was resized (UnsizedList::insert_all_with_offsets, set_data_inner): the error "
   "leaves a modified value / non-canonical bytes. The check prints KNOWN-FINDING for that class and reports any other violation. "
   "Keyed views and whole-value replacement: failure atomicity by correspondence only."),
